@@ -94,6 +94,11 @@ INJECT = {
     "hashi.rs": ("src/hash.rs", "verif_h", "hash::verif_h", "verif/hashi.rs"),
 }
 
+# properties that also get the MIR -> SMT instance (run/mirq.py): C01 (Q ratios == reference at full
+# width) and C10 (the Q ratios are that function of the quartiles and the mode on EVERY path, i.e.
+# whatever the permissive flags are, which the Kani lemma c10_direct_* shows on power-of-two q3 only)
+MIR_SMT_PROPS = ("C01", "C10")
+
 SIMD_OVERFLOW_RE = re.compile(r"attempt to compute `?simd_(add|sub|mul)`? which would overflow")
 
 
@@ -537,7 +542,7 @@ def cmd_check(args):
     sel = [h for h in reg if prop in h.props and (tier == "thorough" or h.tier == "quick")]
     if args.only:
         sel = [h for h in sel if re.search(args.only, h.name)]
-    if not sel and not (prop == "C01" and args.only and re.search(args.only, "mir_smt")):
+    if not sel and not (prop in MIR_SMT_PROPS and args.only and re.search(args.only, "mir_smt")):
         log("no harness registered for %s (tier %s)" % (prop, tier))
         return 2
     os.makedirs(EVIDENCE_DIR, exist_ok=True)
@@ -771,7 +776,7 @@ def qr_native(crate_dir, logdir, triples, tag):
 def run_mir_smt(prop, tier, crate_dir, logdir):
     """C01 only: second back end (nightly MIR -> SMT-LIB2 -> z3 + cvc5) for the Q-ratio
     arithmetic at full width; see run/mirq.py.  Returns (evidence entry, verdict, replay info)."""
-    if prop != "C01":
+    if prop not in MIR_SMT_PROPS:
         return None
     sys.path.insert(0, os.path.dirname(os.path.abspath(__file__)))
     import mirq
